@@ -46,6 +46,10 @@ def gen(tier, rng):
 def run(tier, rng, C):
     cases = gen(tier, rng)
     v, stats = C.differential("C15", cases, nontrivial=lambda l, o: o.startswith("ok "))
+    bad, nbig = C.invariance("C15", c05.big_pairs(tier, rng, ["introspect"]) if "c05" in globals() else big_pairs(tier, rng, ["introspect"]), "a valid document with an unknown member of more than 1 MiB is accepted like the same document without it")
+    v += bad
+    stats["large_document_pairs"] = nbig
+    stats["evaluations"] = stats.get("evaluations", 0) + nbig
     stats["rule"] = ("introspection value-model documents (each optional member absent/null/present, hostile strings, token_type spellings, timestamps, aud shapes, extension members, unknown members, "
                      "random member order / whitespace / escaping) decoded directly and through a 200 reply; every corruption of `active` (missing, null, false, 0, 1, \"true\", \"false\", [], {}, 1.0, ...), "
                      "timestamp boundaries (chrono limits +-1, i64/u64 limits, float, string), aud shapes, null for each optional member, all single-member deletions/type corruptions/duplications of a subset, "
